@@ -500,6 +500,13 @@ def oracle(case: dict, snaps: List[dict], stats: List[str]) -> Optional[Tuple[di
             b = before["nodes"][y] if y < len(before["nodes"]) else None
             if b is None or not _cred_ok(b, op["u"], op["p"]):
                 return ({"kind": "login-without-valid-credentials", "op": k}, f"op {i} {op_line(op)} answered success", i)
+        # the credentials supplied WITH a local command / local login are checked every time (also while that user is logged in, after
+        # the account was disabled, after its password changed): without them nothing at all changes on any node
+        if k in ("lcmd", "llogin") and op["y"] < len(before["nodes"]) and not _cred_ok(before["nodes"][op["y"]], op["u"], op["p"]):
+            if after["nodes"] != before["nodes"] or (k == "llogin" and st == "success"):
+                why = "logged in locally" if (before["nodes"][op["y"]]["loc"] or (None, None))[1] == op["u"] else "not logged in"
+                return ({"kind": "local-credentials-not-checked", "op": k, "user-was": why},
+                        f"op {i} {op_line(op)}: accepted without the current password of an enabled account (user {why})", i)
         if k in ("llogin", "usmlogin") and st == "success":
             b = before["nodes"][op["y"]]
             if not _cred_ok(b, op["u"], op["p"]):
@@ -689,6 +696,70 @@ def gen_op(rng: Rng, cfg: dict, known: Dict[int, Dict[str, str]], malformed: boo
     return {"op": "reset", "y": y}
 
 
+def local_story(rng: Rng, cfg: dict, known: Dict[int, Dict[str, str]]) -> List[dict]:
+    """A user logged in locally, then local logins / commands for that account with wrong credentials, after the account was
+    disabled, after its password changed, after the session timed out or was logged out — and with the right ones again."""
+    n = cfg["n"]
+    y = rng.below(n)
+    u, pw = rng.choice([("admin", "admin"), ("u1", "pw1"), ("adm2", "pw2")])
+    ops: List[dict] = []
+    if u != "admin":
+        ops.append({"op": rng.choice(["adduser", "cfguser"]), "y": y, "u": u, "p": pw, "admin": u == "adm2"})
+        known[y][u] = pw
+    ops.append(rng.choice([{"op": "llogin", "y": y, "u": u, "p": pw}, {"op": "lcmd", "y": y, "u": u, "p": pw, "cmd": dict(FILE)}]))
+    wrong = rng.choice([q for q in PASSWORDS if q != pw])
+
+    def attempt(p):
+        r = rng.below(4)
+        if r == 0:
+            return {"op": "llogin", "y": y, "u": u, "p": p}
+        inner = dict(FILE) if r < 3 else rng.choice([{"op": "adduser", "u": "u2", "p": "pw2", "admin": True}, {"op": "disable", "u": "admin"},
+                                                     {"op": "chpw", "u": u, "old": p, "new": "admin"}])
+        return {"op": "lcmd", "y": y, "u": u, "p": p, "cmd": inner}
+    ops += [attempt(wrong), attempt(pw)]
+    for _ in range(rng.range(1, 3)):
+        ev = rng.below(6)
+        if ev == 0 and u != "admin":
+            ops += [{"op": "disable", "y": y, "u": u}, attempt(pw), attempt(wrong)]
+            if rng.chance(1, 2):
+                ops += [{"op": "enable", "y": y, "u": u}, attempt(pw)]
+        elif ev == 1:
+            new = rng.choice([q for q in PASSWORDS if q != pw])
+            ops += [{"op": "chpw", "y": y, "u": u, "old": pw, "new": new}, attempt(pw), attempt(new)]
+            known[y][u] = pw = new
+        elif ev == 2:
+            ops += [{"op": "tick"}] * cfg["lto"] + [attempt(wrong), attempt(pw)]
+        elif ev == 3:
+            ops += [{"op": "llogout", "y": y}, attempt(wrong), attempt(pw)]
+        elif ev == 4:
+            ops += [{"op": "svc", "y": y, "s": rng.choice(["user-manager", "user-session-manager"]), "v": "stop"}, attempt(pw), attempt(wrong)]
+        else:
+            ops += [{"op": "lcmd", "y": y, "u": "admin", "p": "admin", "cmd": dict(FILE)}, attempt(wrong), attempt(pw)]
+    return ops
+
+
+def local_alphabet() -> List[dict]:
+    """Bounded-exhaustive family for the local command path on node 1 (accounts admin and the second administrator u1/pw1): right and
+    wrong credentials for a local login and a local command, the other account, disable / enable, password change, the new password,
+    logout, tick."""
+    return [
+        {"op": "llogin", "y": 1, "u": "admin", "p": "admin"},
+        {"op": "llogin", "y": 1, "u": "admin", "p": "pw2"},
+        {"op": "lcmd", "y": 1, "u": "admin", "p": "admin"},
+        {"op": "lcmd", "y": 1, "u": "admin", "p": "pw2"},
+        {"op": "lcmd", "y": 1, "u": "admin", "p": "pw1"},
+        {"op": "lcmd", "y": 1, "u": "u1", "p": "pw1"},
+        {"op": "disable", "y": 1, "u": "admin"},
+        {"op": "enable", "y": 1, "u": "admin"},
+        {"op": "chpw", "y": 1, "u": "admin", "old": "admin", "new": "pw1"},
+        {"op": "llogout", "y": 1},
+        {"op": "tick"},
+    ]
+
+
+LOCAL_PREFIX = [{"op": "adduser", "y": 1, "u": "u1", "p": "pw1", "admin": True}]
+
+
 def gen_block(rng: Rng, cfg: dict, on: Optional[bool] = None) -> dict:
     n = cfg["n"]
     x = rng.below(n)
@@ -827,6 +898,8 @@ def gen_case(rng: Rng, max_ops: int = 30) -> dict:
         ops.append({"op": "rlogin", "x": 0, "y": 1, "u": "admin", "p": "admin"})
         ops.append({"op": "rcmd", "x": 0, "y": 1, "cmd": {"op": "rlogin", "y": 2, "u": "admin", "p": "admin"}})
         ops.append({"op": "rcmd", "x": 0, "y": 1, "cmd": {"op": "rcmd", "y": 2, "cmd": dict(FILE)}})
+    elif story == 7:               # the local command path: credentials are checked with every command
+        ops += local_story(rng, cfg, known)
     if cfg["topo"] == "routed" and rng.chance(1, 2):
         for o in transport_story(rng, cfg):
             track(known, o)
